@@ -150,6 +150,7 @@ fn decode_body(cfg: DevCfg, activation: Activation, seed: u64, it: &mut dyn Iter
                 steps.push(Step::Send { port: if port == 0 { 0 } else { port.min(223) }, len, confirmed: op & 0x80 != 0, rx });
             }
             4 if v2 && op & 0x20 != 0 => steps.push(Step::JoinSilence(1 + (nx().unwrap_or(0) as u16 % 90))),
+            4 if v2 && op & 0x10 != 0 => steps.push(Step::SetCreds(op >> 6)),
             4 => {
                 let r = ja(&mut *nx);
                 steps.push(Step::Join(if op & 0x40 != 0 { RxPlan::rx2(r) } else { RxPlan::rx1(r) }));
